@@ -166,10 +166,15 @@ def h_inactive_ack(ctx, id_w, seq_w):
     cond = ctx.pick("cond", ALL_CONDS)
     st = ctx.pick("st", ALL_STATUSES)
     e = rigs.eof(conf, ctx.int("size", 0, 2**32 - 1), w.checksum(ChecksumType.CRC_32, 0), cond)
+    # the EOF's own direction flag may say either (the routing helper sends an EOF to the receiver whatever it says)
+    rigs.set_direction(e, ctx.pick("eof_dir", [Direction.TOWARDS_RECEIVER, Direction.TOWARDS_SENDER]))
     e = w.wire(e)
     ctx.note(int(cond), int(st))
     try:
         a = acknowledge_inactive_eof_pdu(e, st)
+        # the same EOF PDU object may be delivered (and has to be acknowledged) again
+        a2 = acknowledge_inactive_eof_pdu(e, st)
+        ctx.prop("second_acknowledgement_equal", a2 == a, lambda: {"sig": "repeated EOF acknowledged differently"})
     except ValueError:
         ctx.prop("active_status_refused", st == TransactionStatus.ACTIVE)
         ctx.covered("active_refused")
